@@ -402,6 +402,15 @@ def servedStr : Out → String
 
 def handlePolnetWith (F : Facts) (toks : List String) : String :=
   match toks with
+  | ["idle", carrier, _secs] =>
+    -- an idle session on a healthy carrier is kept: nothing in the model makes a stored live session go away by itself
+    match secureCarrier carrier with
+    | some sec =>
+      let c := Cfg.simple sec .absent [if sec then .okSecure else .okPlain]
+      let (s1, o1, _) := connect F c Sh.init true
+      let (s2, o2, _) := connect F c s1 true
+      s!"first={servedStr o1} after={servedStr o2} physical={s2.dials.length}"
+    | none => "bad-op"
   | [loss, carrier] =>
     -- "cut": the carrier is cut; "sessclose": the stored session has closed itself (keep-alive); either way the stored
     -- session fails Connect's liveness test or its OpenStream, is replaced once, and the replacement is reused
